@@ -184,6 +184,14 @@ def node_engine(res, work, *, node, trace_module, cfgs, consts_of, adapt, attrib
             also = ["C05"] if prop == "C04" else []
             if prop == "C08" and evt["ev"] in ("End", "ObsTimers", "Flush", "Tick"):
                 also = ["C02"]       # an element that is never (or twice) emitted is a loss / duplication as well
+            if evt["ev"] == "End" and prop != "C03":
+                # not quiescent at the end although the driver finished everything it could: if a producer's emit is
+                # among what never completed, this is a stuck emit (lost wake-up / deadlock) as well
+                called = {x["e"] for x in r["ev"] if x["ev"] == "emit_call"}
+                done = {x["e"] for x in r["ev"] if x["ev"] in ("emit_done", "emit_raised")}
+                if called - done:
+                    also = also + ["C03"]
+                    why += "; the emits of elements %s never completed" % sorted(called - done)
             res.violations.append(dict(
                 property=prop, also=also, engine=res.name, clause=evt["ev"],
                 what="%s %s schedule '%s': event #%d %s -- %s" % (
